@@ -204,11 +204,21 @@ func (s *Stats) Discrepancy(key, what string, c any) string {
 	_, _, b := HashJSON(c)
 	s.mu.Lock()
 	defer s.mu.Unlock()
-	if _, ok := s.known[key]; ok {
+	_, listed := s.known[key]
+	if !listed && os.Getenv("VERIF_COLLECT") != "" {
+		listed = true // development aid: enumerate every discrepancy key of a campaign instead of stopping at the first
+	}
+	if listed {
 		h := s.knownHits[key]
 		if h == nil {
 			h = &KnownHit{Example: what}
 			s.knownHits[key] = h
+			// keep the first reproducing case of every listed finding as a replay file
+			dir := filepath.Join(verifRoot(), "replays", s.Property, "known")
+			_ = os.MkdirAll(dir, 0o755)
+			doc := map[string]any{"property": s.Property, "test": s.Test, "key": key, "what": what, "case": json.RawMessage(b)}
+			out, _ := json.MarshalIndent(doc, "", " ")
+			_ = os.WriteFile(filepath.Join(dir, sanitize(key)+"."+s.Test+".json"), out, 0o644)
 		}
 		h.Count++
 		return ""
